@@ -25,11 +25,14 @@ RECURSIVE SubsetsUpTo(_, _)
 SubsetsUpTo(S, k) == IF k = 0 THEN {{}} ELSE LET R == SubsetsUpTo(S, k - 1) IN R \cup {r \cup {x} : r \in R, x \in S}
 Max2(a, b) == IF a > b THEN a ELSE b
 
-Init == /\ head \in Last0 + 1 .. Last0 + MaxRange
-        /\ changes \in SubsetsUpTo(Last0 + 1 .. head, MaxChanges)
-        /\ step \in Steps
-        /\ mode \in {"all", "first"}
-        /\ (mode = "first" => changes # {} /\ step = CHOOSE s \in Steps : TRUE)   \* single-change search has no step; needs a change
+\* explicit inputs <<head, set of change levels, step>> beyond the enumerated universe (dense and long histories); overridden by a wrapper module
+Given == {}
+Init == /\ \/ /\ head \in Last0 + 1 .. Last0 + MaxRange
+              /\ changes \in SubsetsUpTo(Last0 + 1 .. head, MaxChanges)
+              /\ step \in Steps
+              /\ mode \in {"all", "first"}
+              /\ (mode = "first" => changes # {} /\ step = CHOOSE s \in Steps : TRUE)   \* single-change search has no step; needs a change
+           \/ \E g \in Given : head = g[1] /\ changes = g[2] /\ step = g[3] /\ mode = "all"
         /\ pc = "start" /\ cur = 0 /\ succ = 0 /\ intervals = <<>>
         /\ wl = 0 /\ wv = 0 /\ target = 0 /\ ihi = 0 /\ bs = 0 /\ be = 0 /\ out = <<>> /\ probes = <<>>
 
